@@ -49,6 +49,12 @@ def _sum_update(
         or isinstance(weight, int)
         or (isinstance(weight, torch.Tensor) and input.size() == weight.size())
     ):
+        if not (input.is_floating_point() or input.is_complex()) and (
+            isinstance(weight, float)
+            or (isinstance(weight, torch.Tensor) and weight.is_floating_point())
+        ):
+            # integer data times a float weight would be rounded to float32 element by element
+            input = input.double()
         return (input * weight).sum()
     else:
         raise ValueError(
